@@ -28,7 +28,7 @@ def pivot():
     S.append(EnumSpec("DisAttr", [
         U("A"), U("H1", disabled=True, message="m", serialize=["h1"]), U("B", serialize=["bee"], message="mb"),
         U("H2", disabled=True, message="m2", flags_last=True), U("C"), U("H3", disabled=True, attr_style="trailing"),
-        U("H4", disabled=True, serialize=["x", "y"], attr_style="split"), U("D"),
+        U("H4", disabled=True, serialize=["x", "yy"], attr_style="split"), U("D"),
     ], note="`disabled` combined with other items in one attribute (before / after them), trailing comma, split attributes"))
     S.append(EnumSpec("SameName", [U("Kb"), U("KB"), U("Warn"), U("Warning", to_string="warn")], serialize_all="lowercase",
                       note="two variants whose canonical names coincide (VariantNames only describes, it must still list every declared variant)"))
